@@ -1,5 +1,8 @@
 SPECIFICATION Spec
 CONSTANTS
+  OrbKinds = {"n", "P", "a"}
+  SpinKinds = {"f", "p"}
+  AllowDeferred = FALSE
   SpinSync = TRUE
   ObliqOn = FALSE
   FixTerms = TRUE
